@@ -870,9 +870,11 @@ static void cmd_patch(int nt, char **t)
 {
 	int hd = hidx(t[1]), hp = hidx(t[2]); int mode = (int)L(t[3]); struct json_patch_error pe; int rc;
 	memset(&pe, 0x5a, sizeof pe);
-	if (mode == 0) rc = json_patch_apply(NULL, H[hp], &H[hd], &pe);
-	else { int hx = hidx(t[4]); H[hx] = NULL; Hset[hx] = 1; rc = json_patch_apply(H[hd], H[hp], &H[hx], &pe); }
-	(void)nt;
+	/* a trailing "N": the caller is not interested in the details of a failure and passes no json_patch_error (documented as optional) */
+	{ struct json_patch_error *pp = (nt > 4 && !strcmp(t[nt - 1], "N")) ? NULL : &pe;
+	  if (mode == 0) rc = json_patch_apply(NULL, H[hp], &H[hd], pp);
+	  else { int hx = hidx(t[4]); H[hx] = NULL; Hset[hx] = 1; rc = json_patch_apply(H[hd], H[hp], &H[hx], pp); }
+	  if (!pp) { pe.errno_code = 0; pe.patch_failure_idx = (size_t)-2; } }
 	ob_printf(&out, "= %d %d %ld", rc, pe.errno_code, pe.patch_failure_idx == (size_t)-1 ? -1L : (long)pe.patch_failure_idx);
 	emit_dlog();
 }
